@@ -20,6 +20,7 @@ Decides, from the MIR of the current tree:
              ... and the rescaled number is compared with the original: scaling down rounds    (found F22)
   RANGE      no unreviewed narrowing `as` cast on the way to the wire; f64 -> f32 narrowing is reported unless compared
              back with the original                                                            (F23, known finding)
+  ENUM       ... the symbol -> index table holds one index per symbol (duplicate symbol => Err at freeze: F43)
   POOLCLEAN  pooled scratch buffers come back empty (shared with C13 / C14: a stale buffer prefixes a later Ok encoding)
 It does NOT decide byte equality with a reference encoder.
 """
